@@ -74,6 +74,51 @@ Check C01_from_scratch :
     outs_ok prog noeq fams NF fuel (init iv idur lru0) ops.
 Print Assumptions C01_from_scratch.
 
+(* The sharp form: the debug-build backdate-violation assertion is unreachable (changed_at
+   stamps never decrease over time: a re-execution either reads what the old run read, whose
+   stamps bound the old changed_at, or re-reads the first changed dependency, whose stamp is
+   later than the old verified_at; an untracked read stamps the frame with the current
+   revision).  So every Get returns the from-scratch value, or unwinds with an INJECTED panic
+   while a fault switch is on -- nothing else. *)
+Theorem C01_from_scratch_strict :
+  forall (prog : qkey -> body) (noeq : qkey -> bool) (fams : list N)
+         (rank : qkey -> nat) (NF : nat),
+  calls_below prog rank -> (forall q, (rank q < NF)%nat) ->
+  forall fuel, (forall p, (rank p < fuel)%nat) ->
+  forall iv idur lru0 ops,
+    (forall i, idur i <= 3) -> Forall dur_op ops -> wf_ops false ops ->
+    outs_ok_strict prog noeq fams NF fuel (init iv idur lru0) ops.
+Proof.
+  intros prog noeq fams rank NF Hrank Hbound.
+  exact (from_scratch_dur_strong_init prog noeq fams rank Hrank NF Hbound).
+Qed.
+Check C01_from_scratch_strict :
+  forall (prog : qkey -> body) (noeq : qkey -> bool) (fams : list N)
+         (rank : qkey -> nat) (NF : nat),
+  calls_below prog rank -> (forall q, (rank q < NF)%nat) ->
+  forall fuel, (forall p, (rank p < fuel)%nat) ->
+  forall iv idur lru0 ops,
+    (forall i, idur i <= 3) -> Forall dur_op ops -> wf_ops false ops ->
+    outs_ok_strict prog noeq fams NF fuel (init iv idur lru0) ops.
+Print Assumptions C01_from_scratch_strict.
+
+(* what [outs_ok_strict] says about one Get, and that it refines [outs_ok] *)
+Theorem C01_strict_outcomes : forall prog noeq fams NF fuel s q r,
+  (get_ok_strict prog NF s q r <->
+   (r = Ok (eval prog NF (snap_of s) q) \/
+    (r = Panic PInjected /\ ((exists c, d_pcell s c <> 0) \/ d_evfault s <> None)))) /\
+  (forall ops, outs_ok_strict prog noeq fams NF fuel s ops -> outs_ok prog noeq fams NF fuel s ops).
+Proof.
+  intros prog noeq fams NF fuel s q r. split; [reflexivity|].
+  intros ops. apply outs_ok_strict_outs_ok.
+Qed.
+Check C01_strict_outcomes : forall prog noeq fams NF fuel s q r,
+  (get_ok_strict prog NF s q r <->
+   (r = Ok (eval prog NF (snap_of s) q) \/
+    (r = Panic PInjected /\ ((exists c, d_pcell s c <> 0) \/ d_evfault s <> None)))) /\
+  (forall ops, outs_ok_strict prog noeq fams NF fuel s ops -> outs_ok prog noeq fams NF fuel s ops).
+Print Assumptions C01_strict_outcomes.
+
 (* what the hypotheses on durabilities say: the four levels of the API *)
 Theorem C01_dur_op_spec : forall o,
   dur_op o <-> (forall i v d, o = OSet i v (Some d) -> d <= 3).
